@@ -224,6 +224,46 @@ def handleLine (st0 : DrvSt) (line : String) : DrvSt × String :=
           let tl ← goCm s0 edits
           pure (out (s0, false) :: tl)
         (st, match r with | some vs => (V.list vs).render | none => (V.err "refused").render)
+      | "tb.run", [n, .list calls] =>
+        -- calls: (add (t id frames)|other) | (assign (offered…) boom|none); answers per call (raised (ids…))
+        let off : V → Option Offered
+          | .list [.sym "t", id, f] => do pure (.track (← id.nat?) (← f.nat?))
+          | .sym "other" => some .other
+          | _ => none
+        let r : Option (List V) := do
+          let n ← n.nat?
+          let rec goTb (b : TB) : List V → Option (List V)
+            | [] => some []
+            | c :: rest => do
+              let (b', raised) ← match c with
+                | .list [.sym "add", o] => do
+                    let r := b.addTrack (← off o)
+                    pure (r.1, r.2 != .ok)
+                | .list [.sym "assign", .list os, boom] => do
+                    let os ← os.mapM off
+                    let bm ← match boom with | .sym "none" => some none | v => (v.nat?).map some
+                    pure (b.assign os bm)
+                | _ => none
+              let tl ← goTb b' rest
+              pure (V.list [.int (if raised then 1 else 0), V.ofNats (b'.tracks.map (·.1))] :: tl)
+          goTb ⟨n, []⟩ calls
+        (st, match r with | some vs => (V.list vs).render | none => "(bad-op)")
+      | "lk.run", [labels, .list keys] =>
+        let r : Option (List V) := do
+          let labels ← labels.nats?
+          keys.mapM (fun k => do
+            let key ← match k with
+              | .list [.sym "idx", i] => do pure (Key.idx (← i.int?))
+              | .list [.sym "label", l] => do pure (Key.label (← l.nat?))
+              | .sym "other" => some Key.other
+              | _ => none
+            let cont : V := match key with | .label l => .int (if containsLabel labels l then 1 else 0) | _ => .int (-1)
+            pure (match getItem labels key with
+              | .item p => V.list [.sym "item", .int p, cont]
+              | .indexError => V.list [.sym "IndexError", cont]
+              | .keyError => V.list [.sym "KeyError", cont]
+              | .typeError => V.list [.sym "TypeError", cont]))
+        (st, match r with | some vs => (V.list vs).render | none => "(bad-op)")
       | "fs.run", [.list nodes, .list ops] =>
         -- nodes: ((path kind #bytes) …) with kind file|dir ; ops: (new p now) | (copy src dst) | (open p)
         let mk : V → Option (Nat × Node)
